@@ -441,3 +441,50 @@ func VH_C13_TicketSequenceFraming() {
 	zzverif.Reach("framed")
 	zzverif.Assert("der-sequence-of-the-tickets-in-order", zzverif.EqBytes(raw.Bytes, append(hdr, want...)))
 }
+
+// VH_C13_DecryptLeavesEncodingAlone: a decoded ticket / AP-REQ / KRB-PRIV whose encrypted part is a genuine
+// RFC ciphertext is decrypted with the REAL decryption code; the object's encoding before and after is the
+// same (decryption must not write into the ciphertext it was given).
+func VH_C13_DecryptLeavesEncodingAlone() {
+	et, n := zzverif.Param("etype"), zzverif.Param("n")
+	key := types.EncryptionKey{KeyType: int32(et), KeyValue: zzverif.Bytes(crypto.VHKeyLen(et))}
+	msg, conf := zzverif.Bytes(n), zzverif.Bytes(crypto.VHConfLen(et))
+	usage := uint32(2)
+	switch zzverif.Param("type") {
+	case 1:
+		usage = 11
+	case 2:
+		usage = 13
+	}
+	cipher := crypto.VHSpecEncrypt(et, key.KeyValue, conf, msg, usage)
+	orig := append([]byte{}, cipher...)
+	ed := types.EncryptedData{EType: int32(et), KVNO: 1, Cipher: cipher}
+	var b1, b2 []byte
+	var derr error
+	switch zzverif.Param("type") {
+	case 0:
+		t := Ticket{TktVNO: 5, Realm: "R", SName: types.NewPrincipalName(2, "s/h"), EncPart: ed}
+		b1, _ = t.Marshal()
+		derr = t.Decrypt(key)
+		b2, _ = t.Marshal()
+		zzverif.Assert("decrypt-leaves-ciphertext-alone", zzverif.EqBytes(t.EncPart.Cipher, orig))
+	case 1:
+		a := APReq{PVNO: 5, MsgType: 14, APOptions: types.NewKrbFlags(), EncryptedAuthenticator: ed}
+		a.Ticket = Ticket{TktVNO: 5, Realm: "R", SName: types.NewPrincipalName(2, "s/h"), EncPart: types.EncryptedData{EType: 18, Cipher: zzverif.Bytes(2)}}
+		b1, _ = a.Marshal()
+		derr = a.DecryptAuthenticator(key)
+		b2, _ = a.Marshal()
+		zzverif.Assert("decrypt-leaves-ciphertext-alone", zzverif.EqBytes(a.EncryptedAuthenticator.Cipher, orig))
+	default:
+		k := KRBPriv{PVNO: 5, MsgType: 21, EncPart: ed}
+		b1, _ = k.Marshal()
+		derr = k.DecryptEncPart(key)
+		b2, _ = k.Marshal()
+		zzverif.Assert("decrypt-leaves-ciphertext-alone", zzverif.EqBytes(k.EncPart.Cipher, orig))
+	}
+	if derr == nil {
+		zzverif.Reach("decrypted")
+	}
+	zzverif.Assert("same-encoding-after-decrypt", zzverif.EqBytes(b1, b2))
+	zzverif.Reach("done")
+}
